@@ -3,6 +3,7 @@ CONSTANTS
   Configs <- InsertConfigs
   Fixed = TRUE
   AllowForeignClose = FALSE
+  AllowCancel = TRUE
 VIEW View
 INVARIANT PacketBoundary
 INVARIANT NoStaleOutput
